@@ -267,6 +267,7 @@ def run(chk):
     chk.trusted.append('harness/shape.py: AST lookup of the statements mirrored by the hand model (Gen/C16Shape.v)')
     proved = chk.prove(['theories/Gen/C16Shape.v', 'theories/C16/HOF.v', 'theories/C16/Model.v', 'theories/C16/Proofs.v', 'theories/C16/Run.v'], 'theories/C16/Properties.v')
     proved = chk.prove(['theories/C15/Keys.v', 'theories/C08/Typed.v', 'theories/C16/TypedSort.v'], 'theories/C16/TypedSortProperties.v') and proved
+    proved = chk.prove(['theories/C16/Equiv.v'], 'theories/C16/EquivProperties.v') and proved
     model_ok = True
     if not proved:
         try:
